@@ -383,15 +383,19 @@ impl PreparedQuery {
 }
 
 /// The plan `exists_subquery_has_rows` compiles for an `EXISTS { subquery }` (the outer row is the
-/// single row of the `Values` leaf).
+/// single row of the `Values` leaf; `outer_columns` are its column names).
 #[cfg(nervusdb_verif)]
-pub fn verif_compile_exists_subquery(subquery: &Query) -> Result<Plan> {
+pub fn verif_compile_exists_subquery(subquery: &Query, outer_columns: &[String]) -> Result<Plan> {
     let mut merge_subclauses = VecDeque::new();
+    let mut outer_row = Row::default();
+    for name in outer_columns {
+        outer_row = outer_row.with(name.clone(), Value::Null);
+    }
     let compiled = compile_m3_plan(
         subquery.clone(),
         &mut merge_subclauses,
         Some(Plan::Values {
-            rows: vec![Row::default()],
+            rows: vec![outer_row],
         }),
     )?;
     Ok(compiled.plan)
